@@ -5,16 +5,18 @@ Imports models and generated tables only (no Mathlib), so it links as a `lean_ex
 -/
 import Driver.Ops
 
-partial def loop (h : IO.FS.Stream) (out : IO.FS.Stream) : IO Unit := do
+partial def loop (h : IO.FS.Stream) (out : IO.FS.Stream) (st : Driver.State) : IO Unit := do
   let line ← h.getLine
   if line.isEmpty then return ()
   let l := line.trimAsciiEnd.toString
-  if !l.isEmpty then
-    out.putStrLn (Driver.handle l)
-  loop h out
+  if l.isEmpty then loop h out st
+  else
+    let (st', r) := Driver.handle st l
+    out.putStrLn r
+    loop h out st'
 
 def main : IO Unit := do
   let stdin ← IO.getStdin
   let stdout ← IO.getStdout
-  loop stdin stdout
+  loop stdin stdout {}
   stdout.flush
